@@ -399,10 +399,11 @@ func c01Expressions(r *findings.Run, deadline time.Time) {
 
 	var mu sync.Mutex
 	capped := false
-	var judge func(v valuation, es []Expr)
-	judge = func(v valuation, es []Expr) {
+	compactCells := 0
+	var judge func(v valuation, es []Expr, o ProgOpts)
+	judge = func(v valuation, es []Expr, o ProgOpts) {
 		prog := cellProg(v, es)
-		pv := JudgeBash(prog, ProgOpts{})
+		pv := JudgeBash(prog, o)
 		if pv.Symptom == "" {
 			return
 		}
@@ -414,13 +415,17 @@ func c01Expressions(r *findings.Run, deadline time.Time) {
 				return // enough distinct reports; do not bisect further
 			}
 			h := len(es) / 2
-			judge(v, es[:h])
-			judge(v, es[h:])
+			judge(v, es[:h], o)
+			judge(v, es[h:], o)
 			return
 		}
-		pv = confirm(prog, ProgOpts{}, pv)
-		key := fmt.Sprintf("expr=%s symptom=%s", PrintExpr(es[0]), pv.Symptom)
-		r.Fail(key, fmt.Sprintf("expression `%s` under %s: %s (%s)", PrintExpr(es[0]), v, pv.Symptom, pv.Detail), progReplay(pv, nil))
+		pv = confirm(prog, o, pv)
+		lay := ""
+		if o.Compact {
+			lay = " layout=compact"
+		}
+		key := fmt.Sprintf("expr=%s%s symptom=%s", PrintExpr(es[0]), lay, pv.Symptom)
+		r.Fail(key, fmt.Sprintf("expression `%s`%s under %s: %s (%s)", PrintExpr(es[0]), lay, v, pv.Symptom, pv.Detail), progReplay(pv, nil))
 	}
 	drive.Par(len(jobs), func(i int) {
 		if past(deadline) {
@@ -430,7 +435,14 @@ func c01Expressions(r *findings.Run, deadline time.Time) {
 			return
 		}
 		j := jobs[i]
-		judge(j.v, j.es)
+		judge(j.v, j.es, ProgOpts{})
+		if i%8 == 0 {
+			// every eighth batch also in the compact spelling (`(a+b)-1`, `a<b&&p`): the same cells, other layout
+			judge(j.v, j.es, ProgOpts{Compact: true})
+			mu.Lock()
+			compactCells += len(j.es)
+			mu.Unlock()
+		}
 		mu.Lock()
 		evals += len(j.es)
 		mu.Unlock()
@@ -452,6 +464,7 @@ func c01Expressions(r *findings.Run, deadline time.Time) {
 	}
 	r.Add("evaluations", evals)
 	r.Set("expr_cells", evals)
+	r.Set("expr_cells_also_in_compact_layout", compactCells)
 	r.Set("expr_cells_distinct", distinct.Len())
 	r.Set("expr_cells_skipped_undefined", skippedUndef)
 	r.Set("expr_trees_guarded_by_known_findings", guarded)
@@ -1107,6 +1120,12 @@ func c01Skeletons(r *findings.Run, deadline time.Time) {
 			}
 			pv = confirm(s.prog, ProgOpts{}, pv)
 			r.Fail("skeleton="+s.name+" symptom="+pv.Symptom, fmt.Sprintf("control skeleton %s: %s (%s)", s.name, pv.Symptom, pv.Detail), progReplay(pv, nil))
+		} else if strings.HasPrefix(s.name, "simple:") || i%16 == 0 {
+			// the simple-statement programs and every sixteenth skeleton also in the compact spelling
+			if cv := JudgeBash(s.prog, ProgOpts{Compact: true}); cv.Symptom != "" && cv.Symptom != "undefined" && r.Violations() <= 40 {
+				cv = confirm(s.prog, ProgOpts{Compact: true}, cv)
+				r.Fail("skeleton="+s.name+" layout=compact symptom="+cv.Symptom, fmt.Sprintf("control skeleton %s in compact layout: %s (%s)", s.name, cv.Symptom, cv.Detail), progReplay(cv, nil))
+			}
 		}
 		mu.Lock()
 		kindsSeen[strings.SplitN(s.name, ":", 2)[0]]++
